@@ -398,6 +398,19 @@ fn main() {
                     emit_cob(&mut o, l.clone());
                     continue;
                 }
+                if l.starts_with("rj ") {
+                    // rejected parameter combinations are re-run on the library
+                    let parts: Vec<&str> = l.split(';').collect();
+                    let hd: Vec<&str> = parts[0].split_whitespace().collect();
+                    let (h, t): (i64, i64) = (hd[2].parse().unwrap(), hd[3].parse().unwrap());
+                    let lk = if parts[1].trim() == "EMPTY" { Link::empty() } else { parse_link(parts[1]) };
+                    type ZHT2 = Poly2<'H', 'T', i64>;
+                    let r1 = guarded(|| { let _ = KhComplex::<i64>::new(&lk, &h, &t, true); }).is_some();
+                    let r2 = guarded(|| { let _ = KhComplex::<Ratio<i64>>::new(&lk, &Ratio::from(h), &Ratio::from(t), true); }).is_some();
+                    let r3 = t != 0 && guarded(|| { let _ = KhComplex::<ZHT2>::new(&lk, &ZHT2::variable(0), &ZHT2::variable(1), true); }).is_some();
+                    o.case(&l, if r1 || r2 || r3 { "RETURNED-A-COMPLEX" } else { "REJECTED" });
+                    continue;
+                }
                 let exp = if l.starts_with("sp ") { "RECORDED-DUMP" } else { "OK" };
                 o.case(&l, exp);
             }
@@ -443,7 +456,11 @@ fn main() {
             type QH = Poly<'H', Ratio<i64>>;
             for l in &links {
                 for red in [false, true] {
-                    if red && l.is_empty() { continue; }
+                    if red && l.is_empty() {
+                        let r1 = guarded(|| { let _ = KhComplex::<i64>::new(l, &0, &0, true); }).is_some();
+                        o.case("rj 1 0 0 ; EMPTY", if r1 { "RETURNED-A-COMPLEX" } else { "REJECTED" });
+                        continue;
+                    }
                     // numeric parameters
                     for (h, t) in [(0i64, 0i64), (1, 0), (0, 1), (2, 3), (2, 0), (3, 0), (1, 1), (0, 2)] {
                         if red && t != 0 { continue; }
@@ -461,6 +478,17 @@ fn main() {
                         let c = format!("rc Q {} ; {} {} ; {}", red as u8, h, t, link_str(l));
                         let res = rust_check::<Ratio<i64>>(l, &Ratio::from(h), &Ratio::from(t), red, 0, 0);
                         o.case(&c, &res);
+                    }
+                    // rejected parameter combinations (precondition of KhComplex::new: reduced needs a non-empty link
+                    // and t = 0; no reduced theory exists otherwise): no complex may be returned
+                    if red {
+                        for (h, t) in [(0i64, 1i64), (1, 1), (2, -3)] {
+                            let r1 = guarded(|| { let _ = KhComplex::<i64>::new(l, &h, &t, true); }).is_some();
+                            let r2 = guarded(|| { let _ = KhComplex::<Ratio<i64>>::new(l, &Ratio::from(h), &Ratio::from(t), true); }).is_some();
+                            let r3 = guarded(|| { let _ = KhComplex::<ZHT>::new(l, &ZHT::variable(0), &ZHT::variable(1), true); }).is_some();
+                            o.case(&format!("rj 1 {} {} ; {}", h, t, link_str(l)),
+                                   if r1 || r2 || r3 { "RETURNED-A-COMPLEX" } else { "REJECTED" });
+                        }
                     }
                     // polynomial parameters
                     emit_cx::<ZH>(&mut o, 0, true, l, &ZH::variable(), &ZH::zero(), red);
